@@ -418,6 +418,17 @@ mut('drain-returns-while-awoken', 'drain gives up the thread on any Pending job,
     E(C03=['TOK-leak', 'PA-stuck', 'TOK-exec']))
 
 
+mut('sync_background-push-no-reschedule', 'sync_background queues its job on an idle queue without rescheduling it', DS,
+    "        if need_reschedule { self.reschedule_queue(queue); }",
+    "        let _ = need_reschedule;",
+    E(C04=['TOK-resched'], C03=['TOK-resched']))
+
+mut('sync_background-reschedule-wrong-state', 'sync_background reschedules only when the queue is Pending (never when Idle)', DS,
+    "            core.queue.push_back(unsafe_job);\n            core.state == QueueState::Idle",
+    "            core.queue.push_back(unsafe_job);\n            core.state == QueueState::Pending",
+    E(C04=['TOK-resched'], C03=['TOK-resched']))
+
+
 # ---- benign refactors: behaviour-preserving edits on which every check must stay silent ------------------------------------------
 B = []
 
